@@ -70,7 +70,7 @@ VARIABLES lay, trashed, fin,                                   \* contract ghost
           want, wantSrv, wantMnt, wantDev, protMnt, replWant, replProt,
           unsafe, underrep, todoT, todoP, lost
 
-C == INSTANCE BalanceContract
+C == INSTANCE BalanceContract WITH PerMount <- FALSE, ClassBlind <- FALSE
 cvars == <<lay, trashed, fin>>
 avars == <<tieflip, classes, ci, order, i, donef, want, wantSrv, wantMnt, wantDev, protMnt, replWant,
            replProt, unsafe, underrep, todoT, todoP, lost>>
